@@ -135,7 +135,15 @@ def step_guard_validator(ctx, rule: str = "C03.step-guard") -> None:
                 if cls != "InvalidOperationError":
                     detail = f"oversized step raises {cls}, the property requires InvalidOperationError"
                     continue
-                if contains_key(vol_term, key(X)):
+                exact = X
+                while isinstance(exact, ast.Call) and call_fname(exact) == "float" and len(exact.args) == 1:
+                    exact = exact.args[0]
+                lossy = [call_fname(s_) for s_ in ast.walk(X) if isinstance(s_, ast.Call) and call_fname(s_) in ("round", "around", "round_", "floor", "ceil", "trunc", "int", "rint", "fix")]
+                if lossy:
+                    detail = f"the limit is compared with `{show(X)[:70]}`, a rounded value ({lossy[0]}), not with the step volume itself: steps marginally above max_volume pass and steps equal to it can be refused"
+                elif not is_name(exact, "volume"):
+                    detail = f"the limit is compared with `{show(X)[:70]}` instead of the step volume"
+                elif contains_key(vol_term, key(X)):
                     ok = True
                 else:
                     detail = f"the guard compares `{show(X)}` but the record's volume field is built from `{show(vol_term)[:80]}`"
